@@ -583,6 +583,15 @@ def jobs_for(pid, tier):
     bulk3 = ([J("bulk-n3", ["bulk"], consts={"Caps": [3], "Classes": [0, 1, 2], "Vers": [0], "Vals": [0], "MaxExtra": 0}),
               J("setbulk-n3", ["bulk"], mode="set", consts={"Caps": [3], "Classes": [0, 1, 2], "Vers": [0], "MaxExtra": 0})] if q else [])
 
+    # quick tier: one slice at capacity 3 / 4 of the families whose control flow depends on positions
+    # (first / middle / last slot, several located keys): one key version, one value content
+    def deep(tag, family, mode="map", cap=3, **c):
+        if not q:
+            return []        # (the thorough tier has the full n3 / n4 graphs)
+        consts = {"Caps": [cap], "Classes": list(range(cap + 1)), "Vers": [0], "Vals": [0]}
+        consts.update(c)
+        return [J("%s-q%d" % (tag, cap), family, mode, consts)]
+
     def trace(tag, mode):
         return dict(tag=tag, spec="trace", mode=mode, family=["trace"], runs=(6 if q else 40), steps=(400 if q else 2000),
                     caps=[8, 6, 4, 2], classes=12)
@@ -611,19 +620,21 @@ def jobs_for(pid, tier):
             out.append(dict(j, profiles=["debug", "release"] + ex) if ex else j)
         return out
     table = {
-        "C01": shaped(core) + tmap + tbig,
-        "C07": shaped(setcore + both("setbulk", ["bulk"], mode="set", consts={"MaxExtra": 1}, bigconsts={"Vers": [0]})) + tset,
-        "C09": both("cursor", ["cursor"]) + setcore + tmap + tset,
-        "C10": shaped(both("cursor", ["cursor"]) + core) + setcore + tmap + tset,
-        "C11": both("entry", ["entry"]) + tmap,
+        "C01": shaped(core) + tmap + tbig + deep("core", ["core"]),
+        "C07": shaped(setcore + both("setbulk", ["bulk"], mode="set", consts={"MaxExtra": 1}, bigconsts={"Vers": [0]})) + tset + deep("setcore", ["core"], mode="set"),
+        "C09": both("cursor", ["cursor"]) + setcore + tmap + tset + deep("cursor", ["cursor"]) + deep("setcore", ["core"], mode="set"),
+        "C10": shaped(both("cursor", ["cursor"]) + core) + setcore + tmap + tset + deep("cursor", ["cursor"]) + deep("setcore", ["core"], mode="set"),
+        "C11": both("entry", ["entry"]) + tmap + deep("entry", ["entry"]),
         "C12": core + both("entry", ["entry"]) + setcore + tmap + tset
                # bulk construction over the element shapes too: Extend<&T> (Copy elements only) is reachable with the
                # plain tagged shape alone, and "the first key object is kept" is stored-key identity
                + shaped(both("bulk", ["bulk"], bigconsts={"MaxExtra": 1}) + both("setbulk", ["bulk"], mode="set", consts={"MaxExtra": 1}, bigconsts={"Vers": [0]})),
-        "C13": prof(both("disjoint", ["disjoint"], consts={"Vers": [0], "MaxKs": 3}, bigconsts={"MaxKs": 4}), "asan", "miri") + tmap + tbig,
+        "C13": prof(both("disjoint", ["disjoint"], consts={"Vers": [0], "MaxKs": 3}, bigconsts={"MaxKs": 4}), "asan", "miri") + tmap + tbig
+               + deep("disjoint", ["disjoint"], cap=4, MaxKs=3),
         # (MaxExtra = 2: an overflow that is not caused by the LAST item of the source - how far the source was consumed is part of the result)
         "C16": both("bulk", ["bulk"], consts={"MaxExtra": 2}, bigconsts={"MaxExtra": 1}) + both("setbulk", ["bulk"], mode="set", consts={"MaxExtra": 2}, bigconsts={"Vers": [0], "MaxExtra": 1}) + bulk3 + tmap + tset,
-        "C18": shaped(both("unchecked", ["unchecked"], consts={"MaxKs": 3}, bigconsts={"Vers": [0], "MaxKs": 4})) + tmap + tbig,
+        "C18": shaped(both("unchecked", ["unchecked"], consts={"MaxKs": 3}, bigconsts={"Vers": [0], "MaxKs": 4})) + tmap + tbig
+               + deep("unchecked", ["unchecked"], cap=4, MaxKs=3),
         "C19": both("fmt", ["fmt", "cursor"]) + core + setcore + pairs("alg", ["algebra"], "set", qcaps[:2] if q else tcaps[:6])
                + ([J("fmt-n3", ["fmt"], consts={"Caps": [3], "Vers": [0], "Vals": [0]}), J("setfmt-n3", ["fmt"], mode="set", consts={"Caps": [3], "Vers": [0]})] if q else []),
         "C08": pairs("alg", ["algebra"], "set", qcaps if q else tcaps) + tset + tbigset + [j for j in micro_bin if j["mode"] == "set"],
@@ -651,7 +662,7 @@ def jobs_for(pid, tier):
         "C05": core + both("ecubc", ["entry", "cursor", "unchecked", "bulk", "clone"], consts={"Vers": [0]}, bigconsts={"MaxExtra": 1}) + setcore
                + both("setbc", ["bulk", "clone"], mode="set", consts={"MaxExtra": 1}, bigconsts={"Vers": [0]}) + tmap + tset + bulk3
                # decoded containers (the container's own output, and hand-made streams with repeated / too many keys)
-               + both("serde", ["serde"]) + both("setserde", ["serde"], mode="set"),
+               + both("serde", ["serde"]) + both("setserde", ["serde"], mode="set") + deep("core", ["core"]) + deep("setcore", ["core"], mode="set"),
         "C02": shaped(core) + prof(shaped(both("cursor", ["cursor"])), "miri") + both("eubc", ["entry", "unchecked", "bulk", "clone"], consts={"Vers": [0]}, bigconsts={"MaxExtra": 1})
                + setcore + both("setbc", ["bulk", "clone"], mode="set", consts={"MaxExtra": 1}, bigconsts={"Vers": [0]}) + tmap + tset
                + both("serde", ["serde"]) + both("setserde", ["serde"], mode="set"),
